@@ -109,6 +109,14 @@ def run(ctx):
     # a deeper attacker, exhaustive only (not printed): three edits (63 k states); thorough: four (832 k)
     jobs.append((ctx, "A-deep3", "C08_MC", _cfg("A", {"MaxEdits": 3}, inv="TypeOKA BindingA HonestA RoundTripA"), None))
     # at most 4 TLC workers at a time: a pool of four single-worker runs, then (thorough) two 2-worker runs
+    # the byte-level test needs nothing from TLC: build the test binary and run it meanwhile
+    goenv.go_test(ctx, PKG, "^$", timeout=1200)   # build once
+    # lib work-around: goenv.make_overlay rewrites <tmp>/overlay.json on every call, which races when
+    # harness tests run concurrently; write it once and reuse the path
+    ov = goenv.make_overlay(ctx)
+    goenv.make_overlay = lambda _ctx, _p=ov: _p
+    tpool = cf.ThreadPoolExecutor(max_workers=3)
+    fb = tpool.submit(goenv.run_harness, ctx, PKG, "^TestVerifC08Bytes$", timeout=1500)
     with cf.ProcessPoolExecutor(max_workers=4) as ex:
         results = {r["name"]: r for r in ex.map(_job, jobs)}
     if thorough:
@@ -174,16 +182,12 @@ def run(ctx):
         % (ctx.wall(), gA.n_states(), gA.n_edges(), gB.n_states(), gB.n_edges(), gC.n_states(), gC.n_edges(), len(wA), len(wB), len(wC)))
 
     # ---- replay on the real code
-    goenv.go_test(ctx, PKG, "^$", timeout=1200)   # build once
-    # lib work-around: goenv.make_overlay rewrites <tmp>/overlay.json on every call, which races when
-    # harness tests run concurrently; write it once and reuse the path
-    ov = goenv.make_overlay(ctx)
-    goenv.make_overlay = lambda _ctx, _p=ov: _p
-    with cf.ThreadPoolExecutor(max_workers=3) as ex:
-        fe = ex.submit(goenv.run_harness, ctx, PKG, "^TestVerifC08Envelope$", inputs=beh, timeout=1500)
-        fb = ex.submit(goenv.run_harness, ctx, PKG, "^TestVerifC08Bytes$", timeout=1500)
-        fk = ex.submit(goenv.run_harness, ctx, PKG, "^TestVerifC08Keys$", inputs=beh, timeout=1500)
+    fe = tpool.submit(goenv.run_harness, ctx, PKG, "^TestVerifC08Envelope$", inputs=beh, timeout=1500)
+    fk = tpool.submit(goenv.run_harness, ctx, PKG, "^TestVerifC08Keys$", inputs=beh, timeout=1500)
+    try:
         env, byt, key = fe.result(), fb.result(), fk.result()
+    finally:
+        tpool.shutdown(wait=True)
     div = 0
     for res, what in ((env, "envelope"), (byt, "bytes"), (key, "keys")):
         if res["_rc"] != 0:
